@@ -7,7 +7,7 @@ R3 hash derivation covers the commitment: serialize_for_signature reads merkle_r
 R4 verify_block: the BlockFetched event is not sent on the mismatch edges of the advertised id / hash comparisons
 """
 from .. import gate
-from ..expr import Chaser, call_name, fields_in, has_call, has_field, show, walk
+from ..expr import Chaser, call_name, fields_in, has_call, has_field, show, strip, walk
 from ..paths import Explorer, describe_path
 from ..report import Finding, Result
 from ._blockvalidate import CORE, BlockValidate
@@ -66,6 +66,7 @@ def run(prog, tier, extra=None):
     R2 = res.rule("C06.creator-signature", "Block::validate accept paths pass verify_signature(pre_hash, signature, creator)", floor=1)
     R3 = res.rule("C06.hash-coverage", "signed header / hash derivation read the commitment fields", floor=4)
     R5 = res.rule("C06.merkle-positional", "a merkle parent hashes left ++ right with no ordering between the children", floor=1)
+    R7 = res.rule("C06.root-recomputed", "generate_merkle_root returns the stored header root only to lite clients; otherwise the root is computed from the transactions", floor=1)
     R6 = res.rule("C06.merkle-covers-all", "every carried transaction contributes at least one leaf to the merkle tree", floor=1)
     R4 = res.rule("C06.verify-block", "verify_block forwards a fetched block only when decoded id and hash equal the advertised ones", floor=2)
 
@@ -213,6 +214,37 @@ def run(prog, tier, extra=None):
         res.add(Finding(R5, "C06.merkle-positional|none", "no MerkleTree body that hashes two child hashes was recognised (anchor moved?)", "saito-core/src/core/consensus/merkle.rs"))
 
     # R4
+    # R7: Block::validate compares the header root with generate_merkle_root(..). That comparison binds the content only if the
+    # function recomputes the root; returning the block's own stored merkle_root makes it compare the header with itself. The stored
+    # root may be handed back only on an edge where is_browser / is_spv is true (a lite client cannot recompute it).
+    gm = prog.body(CORE + "consensus::block::Block::generate_merkle_root")
+    if gm is None:
+        raise LookupError("Block::generate_merkle_root not found")
+    chgm = Chaser(gm)
+    res.instance(R7)
+    own = set()
+    for d in gm.defs(0):
+        e = chgm.rvalue(d[3], 0) if d[0] == "stmt" else chgm.call(d[2], d[1], 0)
+        if has_field(e, "block::Block", "merkle_root"):
+            own.add(d[1])
+    # a local that carries self.merkle_root into the result
+    for l in range(gm.argc + 1, len(gm.locals)):
+        for d in gm.defs(l):
+            if d[0] == "stmt" and has_field(chgm.rvalue(d[3], 0), "block::Block", "merkle_root") and any(
+                    dd[0] == "stmt" and any(x[0] == "local" and x[1] == l for x in walk(chgm.rvalue(dd[3], 0))) for dd in gm.defs(0)):
+                own.add(d[1])
+    lite = gate.bool_switch_edges(gm, chgm, lambda e: strip(e)[0] == "param" and strip(e)[2] in ("is_browser", "is_spv"))
+    if own:
+        reach = gm.reachable(0, deleted_edges=lite["true"])
+        bad = [bb for bb in own if bb in reach]
+        if bad:
+            res.add(Finding(R7, "C06.root-recomputed|own-root", "Block::generate_merkle_root can return the block's own stored merkle_root on a full node (not behind is_browser / is_spv): "
+                            "Block::validate then compares the header root with itself and a block stripped of its transactions passes", gm.loc(bad[0])))
+        else:
+            res.sample({"rule": R7, "stored_root_returned_at": [gm.loc(x) for x in sorted(own)], "verdict": "only behind is_browser / is_spv"})
+    else:
+        res.sample({"rule": R7, "verdict": "the stored root is never returned"})
+
     # R6: the root commits to the transaction list only if no transaction can be skipped when the leaves are made: in
     # MerkleTree::generate, from the start of one iteration over `transactions` the next iteration (or the end of the loop) is not
     # reachable without pushing a leaf. A leaf loop `for _ in 0..tx.txs_replacements` (a wire field) runs zero times for 0, unless it
